@@ -180,3 +180,95 @@ func VerifC12_ScanMatch() {
 	vpAssert(foreign == 0, "match-foreign-key")
 	vpReach("end")
 }
+
+var vpPausedKeys = [5]string{"p0", "p1", "p2", "p3", "p4"}
+
+// VerifC12_PausedScan: an iteration that is interrupted. Five keys are stored (table size 32, 64 or 100: one to three
+// entries per table), the first page is read with COUNT 1 or 2, then - while the client holds its cursor -
+// solver-chosen keys are deleted or overwritten and compaction runs to completion (tables the cursor points into may
+// be emptied, recycled, reused), then the iteration resumes with COUNT 1 or 3 and runs to the end. Every key that was
+// present and untouched for the whole iteration is yielded at least once, keys deleted before the iteration began
+// never, and the iteration terminates.
+func VerifC12_PausedScan() {
+	full := vpBound("full") != 0
+	size := vpSizes[1+vpChoose("size", 2)] // two or three entries per table
+	vpIdleNow = false
+	if full {
+		vpIdleNow = vpChoose("idle", 2) == 1
+	}
+	s := vpMkStore(size)
+	const n = len(vpPausedKeys)
+	put := func(k int, v byte) {
+		e := entry.New()
+		e.SetKey(vpPausedKeys[k])
+		e.SetValue([]byte{v})
+		e.SetTimestamp(int64(7 + k))
+		vpAssume(s.Put(vpHKey(k), e) == nil)
+	}
+	for k := 0; k < n; k++ {
+		put(k, 1)
+	}
+	stable := [n]bool{true, true, true, true, true}
+	absent := -1
+	if full && vpChoose("predeleted", 2) == 1 {
+		absent = vpChoose("which", n)
+		vpAssume(s.Delete(vpHKey(absent)) == nil)
+		stable[absent] = false
+	}
+	seen := [n]int{}
+	foreign := 0
+	f := func(e storage.Entry) bool {
+		hit := false
+		for k := 0; k < n; k++ {
+			if e.Key() == vpPausedKeys[k] {
+				seen[k]++
+				hit = true
+			}
+		}
+		if !hit {
+			foreign++
+		}
+		return true
+	}
+	cursor, err := s.Scan(0, 1+vpChoose("count1", 2), f)
+	vpAssert(err == nil, "scan-error")
+	if cursor != 0 {
+		// the pause: two mutations of solver-chosen kind on solver-chosen keys, then compaction to completion
+		for i := 0; i < 2; i++ {
+			k := vpChoose("key", n)
+			switch vpChoose("mut", 2) {
+			case 0:
+				vpAssume(s.Delete(vpHKey(k)) == nil)
+				stable[k] = false
+			case 1:
+				if k != absent {
+					put(k, 2)
+					stable[k] = false
+				}
+			}
+		}
+		vpCompact(s, 16)
+		count2 := 1 + 2*vpChoose("count2", 2)
+		for iter := 0; cursor != 0; iter++ {
+			vpAssert(iter < 24, "scan-terminates")
+			if iter >= 24 {
+				break
+			}
+			cursor, err = s.Scan(cursor, count2, f)
+			vpAssert(err == nil, "scan-error")
+		}
+	}
+	for k := 0; k < n; k++ {
+		if stable[k] {
+			vpAssert(seen[k] >= 1, "key-present-for-the-whole-iteration-is-yielded")
+		}
+	}
+	if absent >= 0 && !vpReput(absent, stable[:]) {
+		vpAssert(seen[absent] == 0, "key-deleted-before-the-iteration-is-never-yielded")
+	}
+	vpAssert(foreign == 0, "scan-foreign-key")
+	vpReach("end")
+}
+
+// vpReput: the pre-deleted key is never stored again in this harness (overwrites skip it).
+func vpReput(absent int, stable []bool) bool { return false }
